@@ -133,11 +133,155 @@ def run_par(spec):
     return {"now": now, "later": later, "notes": notes, "wall": time.time() - t0}
 
 
+def run_hammer(spec):
+    """Two unsynchronised phases that keep threads inside the library for seconds (no barrier per call):
+    sizes -- ONE shared compiled method (and the cached evaluate path) called by N threads, each with its own
+             index sizes; every result must have the caller's dimensions and the caller's values;
+    fresh -- B builder threads compile F never-seen problems each (the kernel cache fills and evicts) while N
+             threads keep repeating one cached call; every call must return its own sequential result.
+    The expected results are computed alone, before the threads start."""
+    import random
+
+    from tensora import Tensor
+    from tensora.compile import evaluate_tensora, tensor_method
+
+    rng = random.Random(spec.get("seed", 0))
+    sys.setswitchinterval(spec.get("switch", 1e-6))
+    anomalies = []
+    lock = threading.Lock()
+    counts = {"sizes_calls": 0, "fresh_built": 0, "fresh_cached_calls": 0}
+    deadline = time.time() + spec.get("timeout", 300)
+
+    def note(a):
+        with lock:
+            if len(anomalies) < 20:
+                anomalies.append(a)
+
+    # schedule perturbation: a per-thread trace function that yields the processor (a short sleep releases the GIL)
+    # between the LINES of tensora/compile/*.py -- the windows between "look up" and "use" of shared state become
+    # milliseconds wide instead of a few bytecodes.  Installed with sys.settrace inside the threads that ask for it.
+    prng = random.Random(spec.get("seed", 0) + 17)
+
+    def perturb(where="/tensora/compile/"):
+        def local(frame, event, arg):
+            if event == "line" and prng.random() < 0.6:
+                time.sleep(0.0003)
+            return local
+
+        def tracer(frame, event, arg):
+            fn = frame.f_code.co_filename
+            if where in fn:
+                return local
+            return None
+
+        sys.settrace(tracer)
+
+    # ---- phase sizes
+    n = spec.get("threads", 8)
+    calls = spec.get("calls", 1500)
+    assignment = "a(i,j,k) = b(i,j,k) + c(i,j,k)"
+    fm = {"a": "sss", "b": "sss", "c": "sss"}
+    method = tensor_method(assignment, fm)
+    per = []
+    for t in range(n):
+        dims = (2 + t, 3 + 2 * t, 2 + (t % 3))
+        cells = [(i, j, k) for i in range(dims[0]) for j in range(dims[1]) for k in range(dims[2])]
+        bd = {c: float(rng.randint(1, 9)) for c in rng.sample(cells, max(1, len(cells) // 3))}
+        cd = {c: float(rng.randint(1, 9)) for c in rng.sample(cells, max(1, len(cells) // 3))}
+        b = Tensor.from_dok(bd, dimensions=dims, format="sss")
+        c = Tensor.from_dok(cd, dimensions=dims, format="sss")
+        exp = serialize(method(b=b, c=c))
+        per.append((dims, b, c, exp, {"b": {"dims": list(dims), "dok": [[list(k), v] for k, v in bd.items()]},
+                                      "c": {"dims": list(dims), "dok": [[list(k), v] for k, v in cd.items()]}}))
+
+    def sizes_worker(t):
+        dims, b, c, exp, descr = per[t]
+        if t % 2 == 1:
+            perturb()
+        for r in range(calls if t % 2 == 0 else max(50, calls // 20)):
+            if time.time() > deadline or len(anomalies) >= 20:
+                return
+            try:
+                res = method(b=b, c=c) if r % 2 == 0 else evaluate_tensora(assignment, "sss", b=b, c=c)
+                got = serialize(res)
+            except Exception as ex:  # noqa: BLE001
+                got = err(ex)
+            with lock:
+                counts["sizes_calls"] += 1
+            if got != exp:
+                note({"phase": "sizes", "thread": t, "call": r, "assignment": assignment, "formats": fm,
+                      "via": "tensor_method object" if r % 2 == 0 else "evaluate", "inputs": descr,
+                      "expected": exp, "got": got})
+                return
+
+    ts = [threading.Thread(target=sizes_worker, args=(t,), daemon=True) for t in range(n)]
+    for t in ts:
+        t.start()
+    for t in ts:
+        t.join(max(0.0, deadline - time.time()))
+    if any(t.is_alive() for t in ts):
+        note({"phase": "sizes", "what": "threads still running at the deadline"})
+
+    # ---- phase fresh
+    builders, fresh = spec.get("builders", 3), spec.get("fresh", 60)
+    hot_assignment = "y(i) = m(i,j) * x(j)"
+    m = Tensor.from_dok({(0, 1): 2.0, (2, 0): 3.0, (2, 2): -1.0}, dimensions=(3, 3), format="ds")
+    x = Tensor.from_dok({(0,): 1.0, (1,): 5.0, (2,): 7.0}, dimensions=(3,), format="d")
+    hot_exp = serialize(evaluate_tensora(hot_assignment, "d", m=m, x=x))
+    stop = threading.Event()
+
+    def builder(bi):
+        for q in range(fresh):
+            if time.time() > deadline or stop.is_set():
+                return
+            nm = f"f{spec.get('seed', 0)}b{bi}q{q}"
+            asg = f"o{nm}(i) = p{nm}(i) + q{nm}(i)"
+            pv = Tensor.from_dok({(0,): 1.0 + q, (2,): 2.0}, dimensions=(3,), format="s")
+            qv = Tensor.from_dok({(1,): 4.0, (2,): 0.5 + bi}, dimensions=(3,), format="d")
+            try:
+                got = serialize(evaluate_tensora(asg, "d", **{f"p{nm}": pv, f"q{nm}": qv}))
+                want = [float(1.0 + q).hex(), float(4.0).hex(), float(2.5 + bi).hex()]
+                if got["vals"] != want or got["dims"] != [3]:
+                    note({"phase": "fresh", "role": "builder", "assignment": asg, "expected_vals": want, "got": got})
+            except Exception as ex:  # noqa: BLE001
+                note({"phase": "fresh", "role": "builder", "assignment": asg, "got": err(ex),
+                      "history": f"{counts['fresh_built']} never-seen problems compiled before in this process"})
+            with lock:
+                counts["fresh_built"] += 1
+
+    def repeater(t):
+        if t % 3 != 0:
+            # the file that holds the kernel cache: windows between its look-ups and its uses
+            perturb("/tensora/compile/_porcelain.py")
+        while not stop.is_set() and time.time() < deadline:
+            try:
+                got = serialize(evaluate_tensora(hot_assignment, "d", m=m, x=x))
+            except Exception as ex:  # noqa: BLE001
+                got = err(ex)
+            with lock:
+                counts["fresh_cached_calls"] += 1
+            if got != hot_exp:
+                note({"phase": "fresh", "role": "cached call", "assignment": hot_assignment, "expected": hot_exp, "got": got,
+                      "history": f"{counts['fresh_built']} never-seen problems compiled before in this process"})
+                return
+
+    bs = [threading.Thread(target=builder, args=(i,), daemon=True) for i in range(builders)]
+    rs = [threading.Thread(target=repeater, args=(i,), daemon=True) for i in range(spec.get("repeaters", 6))]
+    for t in bs + rs:
+        t.start()
+    for t in bs:
+        t.join(max(0.0, deadline - time.time()))
+    stop.set()
+    for t in rs:
+        t.join(5.0)
+    return {"anomalies": anomalies, "counts": counts}
+
+
 def main():
     mode, spec_path, out_path = sys.argv[1:4]
     spec = json.loads(open(spec_path).read())
     try:
-        res = run_base(spec) if mode == "base" else run_par(spec)
+        res = run_base(spec) if mode == "base" else run_hammer(spec) if mode == "hammer" else run_par(spec)
     except Exception:  # noqa: BLE001
         traceback.print_exc()
         sys.exit(4)
